@@ -122,13 +122,13 @@ Proof.
   { destruct (kind_of cfg q) eqn:K.
     - apply conflict_false_sh; [assumption|]. intros x [<-|[<-|[]]]; auto.
     - apply conflict_false_ex; [assumption|]. intros x [<-|[<-|[]]]; auto. }
-  assert (tail : forall i, solo true cfg q 0 3 (true, [p], (LCreate, i)) = (true, [q; p], (LHeld, i))).
+  assert (tail : forall i, solo true cfg q 0 2 (true, [p], (LCreate, i)) = (true, [q; p], (LHeld, i))).
   { intro i. cbn [solo next]. unfold add. rewrite HM. cbn [solo next]. rewrite HC. reflexivity. }
   assert (scan : forall i, exists k, solo true cfg q 0 k (true, [p], (LScanX, i)) = (true, [q; p], (LHeld, i))).
   { intro i. destruct (isEx cfg p) eqn:X.
-    - exists 5. cbn [solo next filter]. rewrite X. cbn [solo next filter pick length nth_error Nat.modulo Nat.divmod fst snd Nat.sub].
+    - exists 4. cbn [solo next filter]. rewrite X. cbn [solo next filter pick length nth_error Nat.modulo Nat.divmod fst snd Nat.sub].
       rewrite IR. apply tail.
-    - exists 4. cbn [solo next filter]. rewrite X. apply tail. }
+    - exists 3. cbn [solo next filter]. rewrite X. apply tail. }
   destruct (kind_of cfg q) eqn:K.
   - destruct (scan (tries s q)) as [k Hk]. exists (2 + k). cbv zeta. unfold run.
     destruct (run_solo true cfg q 0 (2 + k) s) as (R1 & R2 & R3 & _ & R5).
